@@ -16,6 +16,7 @@ import (
 	"io"
 	"fmt"
 	"math"
+	"regexp"
 	"sort"
 	"strconv"
 	"strings"
@@ -25,6 +26,7 @@ import (
 	"github.com/compose-spec/compose-go/v2/template"
 	"github.com/compose-spec/compose-go/v2/tree"
 	"github.com/sirupsen/logrus"
+	"gopkg.in/yaml.v3"
 
 	"verifharness/core"
 )
@@ -374,8 +376,20 @@ func realCasters(raw json.RawMessage) any {
 	}
 	out["table"] = tbl
 	out["decode"] = dec
+	// what yaml.v3 makes of the plain literal 0[0-7]+ (tie of Spec.yamlLegacyOctal)
+	out["yamloct"] = nil
+	if legacyOctalRe.MatchString(a.S) {
+		var v any
+		if err := yaml.Unmarshal([]byte(a.S), &v); err == nil {
+			if i, ok := v.(int); ok {
+				out["yamloct"] = strconv.Itoa(i)
+			}
+		}
+	}
 	return out
 }
+
+var legacyOctalRe = regexp.MustCompile(`^0[0-7]+$`)
 
 func judgeCasters(args, real, drv json.RawMessage) *core.Verdict {
 	if v := core.CrashVerdict(real); v != nil {
@@ -384,6 +398,7 @@ func judgeCasters(args, real, drv json.RawMessage) *core.Verdict {
 	var r struct {
 		Table, Decode map[string]any
 		Bad           string
+		Yamloct       any
 	}
 	if json.Unmarshal(real, &r) != nil || r.Bad != "" {
 		return core.Disagree("casters: " + r.Bad)
@@ -402,6 +417,9 @@ func judgeCasters(args, real, drv json.RawMessage) *core.Verdict {
 	}
 	if fmt.Sprint(d["int"]) != fmt.Sprint(r.Table["int"]) || fmt.Sprint(d["int"]) != fmt.Sprint(r.Table["int64"]) {
 		return core.Disagree(fmt.Sprintf("Interp.parseInt(%q)=%v but toInt=%v toInt64=%v", a.S, d["int"], r.Table["int"], r.Table["int64"]))
+	}
+	if fmt.Sprint(d["yamloct"]) != fmt.Sprint(r.Yamloct) {
+		return core.Disagree(fmt.Sprintf("Spec.yamlLegacyOctal(%q)=%v but yaml.v3 gives %v", a.S, d["yamloct"], r.Yamloct))
 	}
 	if fmt.Sprint(d["bool"]) != fmt.Sprint(r.Table["bool"]) {
 		return core.Disagree(fmt.Sprintf("Interp.parseBool(%q)=%v but toBoolean=%v", a.S, d["bool"], r.Table["bool"]))
@@ -534,6 +552,23 @@ func runC08(ctx *core.Ctx) {
 		ctx.Count("casters-random")
 		ctx.Add("c08casters", casterArgs{S: b.String()})
 	}
+	// YAML 1.1 octal spellings (tie of Spec.yamlLegacyOctal), incl. the int64 boundary
+	for _, o := range []string{"00", "07", "010", "0440", "0777", "0644", "08", "0", "00000", "0777777777777777777777", "01000000000000000000000", "0777777777777777777778"} {
+		ctx.Count("casters-octal")
+		ctx.Add("c08casters", casterArgs{S: o})
+	}
+	for i := 0; i < ctx.Pick(300, 20000); i++ {
+		n := 1 + ctx.Rng.Intn(6)
+		if ctx.Rng.Intn(8) == 0 {
+			n = 20 + ctx.Rng.Intn(4)
+		}
+		b := []byte{'0'}
+		for j := 0; j < n; j++ {
+			b = append(b, byte('0'+ctx.Rng.Intn(8)))
+		}
+		ctx.Count("casters-octal")
+		ctx.Add("c08casters", casterArgs{S: string(b)})
+	}
 	// near the int64 boundary
 	for _, d := range []int64{-2, -1, 0} {
 		for _, base := range []int64{math.MaxInt64, math.MinInt64 + 2} {
@@ -624,7 +659,7 @@ func runC08(ctx *core.Ctx) {
 		}
 		return env
 	}
-	for i := 0; i < ctx.Pick(20000, 600000); i++ {
+	for i := 0; i < ctx.Pick(15000, 600000); i++ {
 		// a compose-like skeleton: some cast rows instantiated with random leaves, merged with random subtrees
 		t := map[string]any{}
 		malformed := i%5 == 4
